@@ -1,6 +1,6 @@
 (* Props/C15.v — C15: atomic sets partition the features into always-co-selected groups *)
 From Coq Require Import List Bool String ZArith Permutation.
-From FM Require Import Model.FM Model.Sem Model.Ops Proofs.C15Facts.
+From FM Require Import Base.Result Model.FM Model.Sem Model.Ops Model.PyRt Model.Loc Gen.Src_atomic Proofs.C15Facts Proofs.SrcAtomicFacts.
 Import ListNotations.
 Local Open Scope list_scope.
 
@@ -45,3 +45,49 @@ Example C15_nonvacuous :
   /\ sem (sigma_of ["R"; "M"; "MM"; "B"]%string) (root ex15) = true.
 Proof. vm_compute. split; reflexivity. Qed.
 Print Assumptions C15_nonvacuous.
+
+(* ---- the same about the TRANSLATED SOURCE of fm_atomic_sets.py (Gen/Src_atomic.v, regenerated on every run; DESIGN §10).
+   The Python code shares and mutates set OBJECTS (the current set is at once an element of the result list and an argument of the
+   recursion); the translation threads a store of sets, and the theorem says that what comes out — the sets, in order, with their
+   members in order — is the model's, for every model with distinct feature names (needed: a Python set silently drops a second
+   feature of the same name, C15_source_needs_distinct_names). ---- *)
+Theorem C15_source_is_model : forall m fuel, (fuel_tree (root m) <= fuel)%nat -> NoDup (names (root m)) ->
+  exists l, py_get_atomic_sets fuel m = Ok l /\ map (map (fun x => name (fst x))) l = atomic_sets m.
+Proof. exact src_get_atomic_sets. Qed.
+Print Assumptions C15_source_is_model.
+
+Theorem C15_source_partition : forall m fuel, (fuel_tree (root m) <= fuel)%nat -> NoDup (names (root m)) ->
+  exists l, py_get_atomic_sets fuel m = Ok l /\
+            Permutation (List.concat (map (map (fun x => name (fst x))) l)) (names (root m)) /\
+            (forall s, In s l -> s <> []).
+Proof.
+  intros m fuel Hf Hn. destruct (src_get_atomic_sets m fuel Hf Hn) as (l & Hl & He).
+  exists l. split; [exact Hl|]. split.
+  - rewrite He. apply atomic_partition.
+  - intros s Hs Hnil. subst s.
+    assert (Hin : In [] (atomic_sets m)) by (rewrite <- He; apply (in_map (map (fun x => name (fst x))) l [] Hs)).
+    exact (atomic_nonempty m [] Hin eq_refl).
+Qed.
+Print Assumptions C15_source_partition.
+
+Theorem C15_source_coselected : forall m fuel σ, (fuel_tree (root m) <= fuel)%nat -> NoDup (names (root m)) ->
+  valid m σ = true ->
+  exists l, py_get_atomic_sets fuel m = Ok l /\
+            forall s a b, In s l -> In a s -> In b s -> σ (name (fst a)) = σ (name (fst b)).
+Proof.
+  intros m fuel σ Hf Hn Hv. destruct (src_get_atomic_sets m fuel Hf Hn) as (l & Hl & He).
+  exists l. split; [exact Hl|]. intros s a b Hs Ha Hb.
+  apply (C15_coselected_valid m σ (map (fun x => name (fst x)) s)); [exact Hv| | |].
+  - rewrite <- He. now apply in_map.
+  - now apply (in_map (fun x => name (fst x))).
+  - now apply (in_map (fun x => name (fst x))).
+Qed.
+Print Assumptions C15_source_coselected.
+
+Theorem C15_source_needs_distinct_names : exists m,
+  match py_get_atomic_sets (fuel_tree (root m)) m with
+  | Ok l => map (map (fun x => name (fst x))) l <> atomic_sets m
+  | Err _ => True
+  end.
+Proof. exact src_get_atomic_sets_needs_distinct_names. Qed.
+Print Assumptions C15_source_needs_distinct_names.
